@@ -19,10 +19,13 @@ static Fields gen(Tape &t) {
   fin.arg = 1 + (int)t.below(63);  // non-zero mask
   ops.push_back(fin);
   ops_to_fields(f, ops);
+  // in a quarter of the cases the k-th allocation of the final step fails once: a failing make-owner / normalisation
+  // must leave the caller's texts and the other objects alone just like a successful one
+  f.seti("fault", t.chance(3, 4) ? 0 : t.range(1, 8));
   return f;
 }
 
-template <class A> static Verdict run(const std::vector<Op> &ops, bool *nontrivial, std::string *desc) {
+template <class A> static Verdict run(const std::vector<Op> &ops, int fault, bool *nontrivial, std::string *desc) {
   World<A> w;
   w.audit = true;
   for (size_t k = 0; k + 1 < ops.size(); k++) {
@@ -44,7 +47,22 @@ template <class A> static Verdict run(const std::vector<Op> &ops, bool *nontrivi
   std::string textBefore;
   VF_REQUIRE(to_string<A>(U.uri, &textBefore), "%s: uriToString failed before the final step", A::name());
   Op f2 = fin; f2.i = u;
+  LibcLedger &L = libc_ledger();
+  if (fault > 0) { L.req = 0; L.fail_at = (uint64_t)fault; }
   typename World<A>::Res r = w.exec(f2);
+  bool bit = fault > 0 && L.req >= (uint64_t)fault;
+  L.fail_at = 0;
+  if (bit && r.rc != 0) {
+    // the step ran out of memory: the caller's texts and every other object must be untouched (bracketing above), and
+    // everything can still be released (ASan: no free of memory the library does not own)
+    if (!w.auditError.empty()) return Verdict::fail(std::string(A::name()) + ": final op (" + f2.str() + ") with allocation " + std::to_string(fault) + " failing: " + w.auditError);
+    VF_REQUIRE(r.rc == URI_ERROR_MALLOC, "%s: final op %s: allocation %d failed but rc=%d", A::name(), f2.str().c_str(), fault, r.rc);
+    std::string others;
+    for (int k = 0; k < w.size(); k++) if (k != u && w.at(k).valid) { std::string tx; VF_REQUIRE(to_string<A>(w.at(k).uri, &tx), "%s: another object became unreadable after a failed %s", A::name(), f2.str().c_str()); }
+    w.release_all();
+    stats().hit("final_step_ran_out_of_memory");
+    return Verdict::pass();
+  }
   if (!w.auditError.empty()) return Verdict::fail(std::string(A::name()) + ": final op (" + f2.str() + "): " + w.auditError);
   if (r.skipped) return Verdict::pass();
   VF_REQUIRE(r.rc == 0, "%s: final op %s failed rc=%d", A::name(), f2.str().c_str(), r.rc);
@@ -85,10 +103,11 @@ static Verdict check(const Fields &f) {
   if (ops.empty()) return Verdict::discard();
   for (auto &op : ops) if (op.kind == 'P' && !uriref_matcher().matches(op.text)) return Verdict::discard();
   bool nt = false; std::string d;
-  Verdict v = run<Api<char>>(ops, &nt, &d);
+  int fault = (int)f.geti("fault");
+  Verdict v = run<Api<char>>(ops, fault, &nt, &d);
   if (v.kind != Verdict::PASS) return v;
   bool nt2 = false; std::string d2;
-  v = run<Api<wchar_t>>(ops, &nt2, &d2);
+  v = run<Api<wchar_t>>(ops, fault, &nt2, &d2);
   if (v.kind != Verdict::PASS) return v;
   if (nt) stats().nontrivial(f.text(), d);
   return Verdict::pass();
